@@ -357,15 +357,17 @@ func GetAcsUrlAndBindingForResponse(
 ) (string, string) {
 	acsUrl := ""
 	protocolBinding := ""
+	found := false
 
 	for _, acs := range acs {
 		if acs.Binding == requestProtocolBinding {
 			acsUrl = acs.Location
 			protocolBinding = acs.Binding
+			found = true
 			break
 		}
 	}
-	if acsUrl == "" {
+	if !found {
 		isDefaultFound := false
 		for _, acs := range acs {
 			if acs.IsDefault == "true" {
@@ -377,12 +379,14 @@ func GetAcsUrlAndBindingForResponse(
 		}
 		if !isDefaultFound {
 			index := 0
+			indexFound := false
 			for _, acs := range acs {
 				i, _ := strconv.Atoi(acs.Index)
-				if index == 0 || i < index {
+				if !indexFound || i < index {
 					acsUrl = acs.Location
 					protocolBinding = acs.Binding
 					index = i
+					indexFound = true
 				}
 			}
 		}
